@@ -62,3 +62,12 @@ Theorem C10_bad_type_holds_the_skipped_tokens : forall ts p e t rest e', recover
     (ts = (sk ++ rest)%list \/ exists x r, ts = (sk ++ x :: r)%list /\ rest = half_keep x :: r /\ kis x ">>" = true).
 Proof. exact recover_spec. Qed.
 Print Assumptions C10_bad_type_holds_the_skipped_tokens.
+
+(* ---- BadDDL nodes of the statement family (Parse/StmtModel.v): a rejected statement becomes a Bad node that holds exactly the tokens of
+   the piece -- all of them, in order, from its first token to the one before the terminator -- with NodePos the start of the first and
+   NodeEnd the end of the last; parsing resumes at the terminator ---- *)
+From Verif Require Import Parse.StmtModel Parse.StmtProofs.
+Theorem C10_bad_ddl_holds_the_whole_piece : forall p k d r, p <> [] -> Forall plainT p -> theaded k -> sp_ddl (p ++ k) = Some (d, r, 1) ->
+  d = DBad false (ppos (cur p)) (last_pend (ppos (cur p)) p) p /\ r = k.
+Proof. exact sp_ddl_bad. Qed.
+Print Assumptions C10_bad_ddl_holds_the_whole_piece.
